@@ -3,6 +3,7 @@ import ast
 import glob
 import os
 import random
+import sys
 from .. import gramgen, recog
 from ..real import Real
 from ..observe import Ctx, REPO
@@ -273,10 +274,62 @@ def file_history(ctx, base_text, bad_texts, c):
     return None
 
 
+def overlapping_case(ctx, rng, c):
+    """two compilations overlapping in time (a worker thread compiles a long text with an early syntax error while
+    this thread compiles small valid programs with the same options): the text outside the grammar must still be
+    rejected. Only 'the bad text raised' is judged - any exception counts."""
+    import threading
+    real = ctx['real']
+    toks = gramgen.program(rng)
+    good = gramgen.join(rng, toks)
+    bad_first = rng.choice(['a(X) :- b(X),, c(X).', 'a(X) :- b(X) c(X).', 'a(X :- b.', "a('x) :- b.", 'a(X) :- ; b.', 'a(X)) :- b.'])
+    text = bad_first + '\n' + (good.rstrip('\n') + '\n') * rng.choice([30, 120, 400])
+    an = recog.analyse(text)
+    if an['accept'] is not False:
+        return None
+    out = {}
+
+    def work():
+        try:
+            out['code'] = real.compile(text)
+        except BaseException as e:
+            out['exc'] = type(e).__name__
+    th = threading.Thread(target=work)
+    old = sys.getswitchinterval()
+    sys.setswitchinterval(1e-5)
+    try:
+        th.start()
+        n = 0
+        while th.is_alive() and n < 20000:
+            try:
+                real.compile('ok(%d).\n' % n)
+            except Exception:
+                pass
+            n += 1
+        th.join(60)
+    finally:
+        sys.setswitchinterval(old)
+    c['overlapping_compilations'] = c.get('overlapping_compilations', 0) + 1
+    c['compilations_started_meanwhile'] = c.get('compilations_started_meanwhile', 0) + n
+    if th.is_alive():
+        return None
+    if 'code' in out:
+        return {'kind': 'text_outside_grammar_accepted_while_another_compilation_ran',
+                'detail': {'first_clause': bad_first, 'recogniser': an['reason'], 'returned_chars': len(out['code'])},
+                'witness': {'text': text[:400], 'text_chars': len(text)}}
+    return None
+
+
 def run_case(ctx, seed, idx, tier):
     rng = random.Random((seed * 1000003 + idx) * 7 + 10)
     c = {}
     keys = set()
+    if idx % 25 == 9:
+        v = overlapping_case(ctx, rng, c)
+        r = {'c': c, 'nt': False, 'key': None, 'multi_keys': []}
+        if v:
+            r['v'] = v
+        return r
     if idx % 12 == 11 and ctx['samples']:
         name, text = ctx['samples'][(idx // 12) % len(ctx['samples'])]
         v, sample = run_base(ctx, rng, text, None, c, keys)
